@@ -304,13 +304,26 @@ def jobs(tier, seed, which='C02'):
         drop = set(alu) - set(rnd.sample(alu, 3))
         names = [n for n in CORE_MN if n in names and n not in drop] + rest[:15]
     chunks = [names[i:i + 1] for i in range(0, len(names), 1)]
-    return [('asm', tier, ch, which) for ch in chunks]
+    out = [('asm', tier, ch, which) for ch in chunks]
+    if which == 'C03':
+        # converse direction: decode (symbolic bytes) -> real Intel rendering in render mode -> real parser -> the original bytes
+        # must be among the candidates for all byte values of the path (vf/checks/c09.py, Intel half)
+        from vf.checks import c09
+        out += c09.jobs(tier, seed, syntaxes=('intel',), nsample=40)
+    return out
 
 
 def run_job(job):
-    _, tier, names, which = job
     res = {'paths': 0, 'queries': 0, 'solver_s': 0.0, 'obligations': 0, 'proved': 0, 'candidates': [],
            'inconclusive': [], 'samples': [], 'programs': 0, 'nontrivial': 0}
+    if job[0] == 'rt':
+        from vf.checks import c09
+        res['programs'] = 1
+        c09.run_rt(job, res, which='C03')
+        for c in res['candidates']:
+            c['key'] = 'conv:' + c['key']
+        return res
+    _, tier, names, which = job
     shapes = AD.operand_shapes(tier)
     lines = AD.accepted_lines(names, shapes)
     # one line per (mnemonic, tag tuple) class
@@ -381,6 +394,9 @@ sys.exit(1 if bad else 0)
 
 
 def make_replay(cnd, prop='C02'):
+    if 'att' in cnd['data'] and 'bytes' in cnd['data']:
+        from vf.checks import c09
+        return c09.make_replay(cnd)
     return REPLAY % {'data': cnd['data'], 'prop': prop}
 
 
@@ -400,6 +416,10 @@ def main(argv=None, which='C02'):
                                 'ply.lex / ply.yacc (real lexer and LALR engine on the real text)', 'ia32_arch:x86_mn._dis (decoding the candidates)']
     cov['bounds'] = ('%s mnemonics x 48 operand shapes (0-2 operands + four 3-operand forms), Intel syntax; every number token symbolic in [0, 2^32) (negative numbers through "-N" shapes); '
                      'template clause at <= 60 witnesses per line incl. every number pushed to its extremes' % ('~90 (core list + seeded sample)' if a.tier == 'quick' else 'all'))
+    if which == 'C03':
+        cov['functions_encoded'].append('converse: x86_mn._dis (symbolic bytes) -> x86_mn.__str__ in render mode -> x86_mn._asm (vf/x86/roundtrip.py)')
+        cov['bounds'] += ('; converse direction: opcode rows x prefix sets (), (66)%s, thin ModRM slice, misses reported only for encodings GNU as reproduces from the rendering (canonical)'
+                          % (' (fixed core list + 40 rows sampled by seed)' if a.tier == 'quick' else ', (67), all rows'))
     if cov['proved'] == 0:
         herr.append('vacuous: nothing proved')
     assumptions = ['digit-string to integer conversion in the lexer is not covered (numbers are substituted right after lexing)', 'objdump as arbiter of the template at witnesses', 'the decoder is validated by C01', 'z3 5.1.0']
